@@ -1511,6 +1511,23 @@ func (r *runner) narrow(o *Origin, st *State, keep func(*Exit) bool) {
 		st.Must[t] = true
 		st.May[t] = true
 	}
+	// what only the exits ruled out may have done has not happened on this path (as for the nil / non-nil edge of an
+	// error result): `done, err := step(); if !done { undo() }` — undo is not "after the commit inside step"
+	feasMay, otherMay := map[Tag]bool{}, map[Tag]bool{}
+	for i, ex := range exits {
+		m := otherMay
+		if f.mask&(1<<uint(i)) != 0 {
+			m = feasMay
+		}
+		for t := range ex.St.May {
+			m[t] = true
+		}
+	}
+	for t := range otherMay {
+		if !feasMay[t] && !st.Must[t] {
+			delete(st.May, t)
+		}
+	}
 }
 
 // feasMust: the tags every feasible exit (that also satisfies also, if given) has established; nil if there is none
@@ -1568,6 +1585,29 @@ func (r *runner) refineEq(tag, val ast.Expr, branch bool, st *State) {
 	}
 	if c := core.ConstObj(r.info, val); c != nil {
 		r.setEq(ast.Unparen(tag), c, branch, st)
+		// the tested variable holds a result of a callee analysed in context (a verdict: state, err := classify(..)):
+		// only the exits answering that constant (resp. another value) are still possible
+		if o := core.ObjOf(r.info, ast.Unparen(tag)); o != nil {
+			if or := st.Def[o]; or != nil && or.Inlined && or.Callee != nil {
+				if g := r.sp.W.Info(or.Callee); g != nil {
+					idx := st.DefIdx[o]
+					ginfo := g.Pkg.TypesInfo
+					r.narrow(or, st, func(ex *Exit) bool {
+						if idx < 0 || idx >= len(ex.Results) {
+							return true
+						}
+						rc := core.ConstObj(ginfo, ex.Results[idx])
+						if rc == nil {
+							return true // not a named constant: either way
+						}
+						if branch {
+							return rc == c
+						}
+						return rc != c
+					})
+				}
+			}
+		}
 	}
 }
 
@@ -3709,6 +3749,12 @@ func (sp *Spec) AnalyzeSeed(f *core.FuncInfo, seed func(*State)) *Result {
 }
 
 // SetBool seeds a boolean fact.
+// SetTag seeds an entry fact: the tag holds on entry (a helper that is only ever called with a lock held, ...)
+func (s *State) SetTag(t Tag) {
+	s.Must[t] = true
+	s.May[t] = true
+}
+
 func (s *State) SetBool(o types.Object, v bool) {
 	if v {
 		s.Bool[o] = isTrue
